@@ -6,6 +6,7 @@ package main
 
 import (
 	"fmt"
+	"os"
 	"go/types"
 	"net/textproto"
 	"sort"
@@ -222,15 +223,19 @@ func (ex *Exec) verifCall(fn *ssa.Function, args []Value, fr *Frame) Value {
 		}
 		if !c.IsTrue() {
 			ex.addPC(c)
-			if !ex.feasible(tb.True) {
-				panic(pathEnd{"assume-infeasible"})
-			}
+			ex.pcDirty = true
 		}
 		return nil
 	case "verifAssert":
-		ex.doAssert(ex.argName(args[0]), args[1].(*Term))
+		ex.doAssert(ex.argName(args[0]), args[1].(*Term), "", nil)
+		return nil
+	case "verifAssertKF":
+		// verifAssertKF(name, cond, findingID, findingPredicate): violations that satisfy the
+		// predicate are attributed to the named known finding; any other violation is new.
+		ex.doAssert(ex.argName(args[0]), args[1].(*Term), ex.argName(args[2]), args[3].(*Term))
 		return nil
 	case "verifReach":
+		ex.settle()
 		ex.res.Reached = append(ex.res.Reached, ex.argName(args[0]))
 		return nil
 	case "verifNote":
@@ -291,7 +296,13 @@ func (ex *Exec) verifCall(fn *ssa.Function, args []Value, fr *Frame) Value {
 		lst, _ := ex.ghost["spawned"].([]deferred)
 		return ex.i64(int64(len(lst)))
 	case "verifLockHeld":
-		p := args[0].(*Pointer)
+		var p *Pointer
+		switch x := args[0].(type) {
+		case *Pointer:
+			p = x
+		case *IfaceV:
+			p = x.Val.(*Pointer)
+		}
 		st := ex.lockState(p)
 		return tb.Bool(st["w"] > 0 || st["r"] > 0)
 	case "verifExpectPanic":
@@ -310,6 +321,16 @@ func (ex *Exec) verifCall(fn *ssa.Function, args []Value, fr *Frame) Value {
 			ex.invoke(args[0].(*FuncV), nil, fr)
 		}()
 		return tb.Bool(panicked)
+	case "verifAnd":
+		return tb.And(args[0].(*Term), args[1].(*Term))
+	case "verifOr":
+		return tb.Or(args[0].(*Term), args[1].(*Term))
+	case "verifNot":
+		return tb.Not(args[0].(*Term))
+	case "verifImplies":
+		return tb.Implies(args[0].(*Term), args[1].(*Term))
+	case "verifIteInt", "verifIteByte", "verifIteBool":
+		return tb.Ite(args[0].(*Term), args[1].(*Term), args[2].(*Term))
 	case "verifTier":
 		return ex.i64(int64(ex.opts.Tier))
 	case "verifOpaqueID":
@@ -325,13 +346,36 @@ func (ex *Exec) verifCall(fn *ssa.Function, args []Value, fr *Frame) Value {
 	panic(unsupported("verif runtime function " + fn.Name()))
 }
 
-func (ex *Exec) doAssert(name string, c *Term) {
+func (ex *Exec) doAssert(name string, c *Term, kfID string, kf *Term) {
 	rec := AssertRec{Name: name}
+	ex.settle()
+	if kf != nil && !c.IsTrue() {
+		// first: violations outside the known finding
+		cr := ex.sess.Check([]*Term{ex.tb.Not(c), ex.tb.Not(kf)}, true)
+		switch cr.Res {
+		case "sat":
+			rec.Status, rec.Model = "violated", cr.Model
+		case "unsat":
+			cr2 := ex.sess.Check([]*Term{ex.tb.Not(c), kf}, true)
+			switch cr2.Res {
+			case "sat":
+				rec.Status, rec.Model, rec.Detail = "known:"+kfID, cr2.Model, kfID
+			case "unsat":
+				rec.Status = "proved"
+			default:
+				rec.Status, rec.Detail = "unknown", cr2.Res+": "+cr2.Raw
+			}
+		default:
+			rec.Status, rec.Detail = "unknown", cr.Res+": "+cr.Raw
+		}
+		ex.finishAssert(rec, c)
+		return
+	}
 	switch {
 	case c.IsTrue():
 		rec.Status = "trivially-true"
 	case c.IsFalse():
-		cr := ex.solver.Check(ex.tb, ex.pc, true)
+		cr := ex.sess.Check(nil, true)
 		switch cr.Res {
 		case "sat":
 			rec.Status, rec.Model = "violated", cr.Model
@@ -341,7 +385,7 @@ func (ex *Exec) doAssert(name string, c *Term) {
 			rec.Status, rec.Detail = "unknown", cr.Res
 		}
 	default:
-		cr := ex.solver.Check(ex.tb, append(append([]*Term{}, ex.pc...), ex.tb.Not(c)), true)
+		cr := ex.sess.Check([]*Term{ex.tb.Not(c)}, true)
 		switch cr.Res {
 		case "unsat":
 			rec.Status = "proved"
@@ -351,8 +395,18 @@ func (ex *Exec) doAssert(name string, c *Term) {
 			rec.Status, rec.Detail = "unknown", cr.Res+": "+cr.Raw
 		}
 	}
+	ex.finishAssert(rec, c)
+}
+
+func (ex *Exec) finishAssert(rec AssertRec, c *Term) {
+	if os.Getenv("SYMGO_DEBUG") != "" {
+		fmt.Fprintf(os.Stderr, "  assert %s -> %s pc=%d\n", rec.Name, rec.Status, len(ex.pc))
+	}
+	if rec.Model != nil {
+		rec.Prefix = append([]int{}, ex.decisions[:ex.decIdx]...)
+	}
 	ex.res.Asserts = append(ex.res.Asserts, rec)
-	if rec.Status == "violated" || rec.Status == "unknown" {
+	if rec.Status == "violated" || rec.Status == "unknown" || strings.HasPrefix(rec.Status, "known:") {
 		// continue under the assumption that the assertion held
 		if c.IsFalse() {
 			panic(pathEnd{"assert-false"})
@@ -627,6 +681,31 @@ func (ex *Exec) atoiTerm(s *StringV) (*Term, *Term) {
 	if s.Arr == nil {
 		return ex.i64(0), tb.False
 	}
+	if s.Off.IsConst() && s.Len.IsConst() && s.Len.SInt() < 19 {
+		// concrete length below 19: strconv's fast path, no overflow possible
+		bs := ex.strBytes(s)
+		n := len(bs)
+		if n == 0 {
+			return ex.i64(0), tb.False
+		}
+		isDig := func(c *Term) *Term {
+			return tb.And(tb.Cmp(OpUle, tb.BV(8, '0'), c), tb.Cmp(OpUle, c, tb.BV(8, '9')))
+		}
+		dig := func(c *Term) *Term { return tb.ZExt(tb.Sub(c, tb.BV(8, '0')), 64) }
+		neg := tb.Eq(bs[0], tb.BV(8, '-'))
+		signed := tb.Or(neg, tb.Eq(bs[0], tb.BV(8, '+')))
+		ok := tb.Or(signed, isDig(bs[0]))
+		if n == 1 {
+			ok = isDig(bs[0])
+		}
+		acc := tb.Ite(signed, ex.i64(0), dig(bs[0]))
+		for j := 1; j < n; j++ {
+			ok = tb.And(ok, isDig(bs[j]))
+			acc = tb.Add(tb.Bin(OpMul, acc, tb.BV(64, 10)), dig(bs[j]))
+		}
+		val := tb.Ite(neg, tb.Un(OpNeg, acc), acc)
+		return tb.Ite(ok, val, ex.i64(0)), ok
+	}
 	arr := s.Arr.Val.(ArrayV)
 	n := len(arr)
 	end := tb.Add(s.Off, s.Len)
@@ -653,8 +732,7 @@ func (ex *Exec) atoiTerm(s *StringV) (*Term, *Term) {
 		allDig = append(allDig, tb.Implies(inside, isDig))
 		d := tb.ZExt(tb.Sub(c, tb.BV(8, '0')), 64)
 		nover := tb.Or(over, tb.Cmp(OpUlt, cut, acc))
-		x10 := tb.Add(tb.Bin(OpShl, acc, tb.BV(64, 3)), tb.Bin(OpShl, acc, tb.BV(64, 1)))
-		nacc := tb.Add(x10, d)
+		nacc := tb.Add(tb.Bin(OpMul, acc, tb.BV(64, 10)), d)
 		acc = tb.Ite(inside, nacc, acc)
 		over = tb.Ite(inside, nover, over)
 	}
